@@ -4,6 +4,8 @@
 #include "common/vf.hpp"
 #include <kernel/runtime.hpp>
 #include <atomic>
+#include <unistd.h>
+#include <sys/syscall.h>
 void c17_register_sched(std::vector<vf::Target>& tg, const std::string& prefix);
 void c17_register_real(std::vector<vf::Target>& tg, const std::string& prefix);
 #if defined(__SANITIZE_THREAD__)
@@ -24,7 +26,7 @@ extern "C" void __tsan_on_report(void* report)
     if(fd >= 0)
     {
       std::string s = std::string("V{\"verdict\":\"fail\",\"sym\":\"mismatch:ThreadSanitizer reported ") + c17::tsan_first() + " during a threaded assemble()\",\"overrun\":0}\n";
-      (void)!write(fd, s.data(), s.size()); _exit(0);
+      (void)!write(fd, s.data(), s.size()); syscall(SYS_exit_group, 0); _exit(0);
     }
   }
 }
